@@ -265,7 +265,7 @@ def random_topology(rng, n, graph_kind):
     f.append({'k': 'cont', 't': [rng.choice(['MOL', 'BMIM', 'X1', 'LIG_A']), '1'], 'c': []})
     f.append({'k': 'blank', 't': [], 'c': []})
     f.append({'k': 'sec', 't': ['atoms'], 'c': []})
-    resid = 1
+    resid = rng.choice([1, 1, 1, 7, 99998, 100000, 123456])      # residue numbers are not limited to five digits in a topology
     for i in range(n):
         if i and rng.random() < 0.15:
             resid += 1
